@@ -14,6 +14,12 @@ def run():
     chk.add_model("MutexImpl/variant timeout_swallows_wake (must violate)", r, note="violated: %s" % r["violated"])
     chk.add_model("MutexRefine: MutexImpl refines the abstract mutex MutexTiny (holder <- owner)",
                   vlib.model_check("MutexRefine", "MutexRefine.cfg", timeout=600))
+    chk.add_model("RecursiveMutexImpl (inner mutex, owner, recursion count; 3 threads nesting 2 deep, 2 rounds)",
+                  vlib.model_check("RecursiveMutexImpl", "RecursiveMutexImpl.cfg", timeout=600))
+    for cfg in ("RecursiveMutexImpl_dev.cfg", "RecursiveMutexImpl_dev_excl.cfg"):
+        rr = vlib.model_check("RecursiveMutexImpl", cfg, expect_ok=False, timeout=600)
+        chk.add_model("RecursiveMutexImpl/variant late_count_store, %s (must violate)" % cfg[:-4], rr,
+                      note="violated: %s" % rr["violated"])
     (binary,) = vlib.build_harness(["sync_harness"])
     nruns = 64 if chk.thorough() else 16
     nhist = 150 if chk.thorough() else 60
